@@ -25,7 +25,12 @@ RULE = ("random Bayesian networks (1-7 nodes, families with up to 4 parents, CPD
         "rejected by check_model.  Node names str/int/tuple/mixed/substring-of-each-other (x1,x10,x1_0,G,G2,'' and "
         "the keyword prefix phi_); state names default, per-variable strings, shared strings, non-positional ints "
         "([1,0],[1,2,0]), 1-based, booleans.  Every heuristic H1..H6, the no-argument default, order=[] and explicit "
-        "orders (also with isolated and repeated nodes), inplace both ways; numpy backend and (1 case in 6) torch.  "
+        "orders (also with isolated and repeated nodes), inplace both ways; numpy backend and (1 case in 6) torch "
+        "(float32-exact values only: torch.Tensor(values) is the backend's documented float32 construction); every "
+        "partition function also under torch; get_immoralities = the married non-adjacent co-parent pairs, parents "
+        "of different name types included.  State-name ORDER disagreements between factors of one MN/FG are not "
+        "generated (outside every property statement; check_model does not compare them); between CPDs of a BN "
+        "they must be rejected.  "
         "Every conversion is bracketed by a deep snapshot of the source (nodes, edges, factor objects, value bytes, "
         "state names, the order argument).  SESSIONS on one object (MN, BN, FG): conversions re-run after add_edge, "
         "remove_edge, add_node, remove_node, clear (networkx mutators), add_factors (also with a LATER invalid "
@@ -49,12 +54,15 @@ ASSUMPTIONS = ["node names are interned to nat identifiers by the harness",
                "cardinalities are consistent across factors (inconsistent cardinalities are not generated)",
                "to_factor_graph is exercised with string node names only (it joins the scope with '_'); the "
                "FactorGraph API on its output (open finding) without names starting with 'phi'",
-               "under the torch backend MarkovNetwork/FactorGraph.get_partition_function is not called "
-               "(np.sum on a tensor raises TypeError on the unchanged tree; reported to the coordinator)",
-               "factors of one model agree on each variable's state-name order (MarkovNetwork.check_model does "
-               "not reject a disagreement and the product is positional; reported, belongs to C04/C05)"]
+               "torch cases use float32-exact values only (small dyadics, exact zeros; no 2^-300..2^300 scaling, no "
+               "near-equal duplicates, no 2^-30..2^-50 columns): the torch backend builds factors through "
+               "torch.Tensor(values), i.e. float32 is its documented construction dtype",
+               "the factors of one Markov network / factor graph agree on each variable's state-name order: "
+               "MarkovNetwork.check_model does not compare state-name orders across factors and products are "
+               "positional; this is outside every property statement (C05's validation clause is about Bayesian "
+               "networks), so such inputs are not generated -- only the BN version, which check_model rejects"]
 
-TORCH_PARTITION = False   # MarkovNetwork/FactorGraph.get_partition_function under torch: TypeError on the unchanged tree
+TORCH_PARTITION = True    # get_partition_function under torch: repaired by 0dd4715 (fixed key "partition-function-torch")
 STATE_STYLES = ["default", "str", "shared", "intperm", "rot", "onebased", "bool"]
 NAME_STYLES = common.NAME_STYLES + ["substr"]
 VALSRC = ["list", "list", "ndarray", "other", "buffer"]
@@ -809,6 +817,11 @@ def _bn_core(P, drv, case, bn, nodes, edges, cpds_by_var, names, idx, states, ta
     if {idx[v] for v in mg.nodes()} != set(mnodes) or _eset(mg.edges(), idx) != _eset(medges):
         P.add("impl!=model:moralize", {"what": what, "impl": sorted(map(sorted, _eset(mg.edges(), idx))),
                                        "model": sorted(map(sorted, _eset(medges)))})
+    dag_adj = _eset(edges)
+    imm = {frozenset((idx[a], idx[b])) for a, b in bn.get_immoralities()}
+    if imm != _eset(medges) - dag_adj:
+        P.add("impl!=model:get_immoralities", {"what": what, "impl": sorted(map(sorted, imm)),
+                                                "model": sorted(map(sorted, _eset(medges) - dag_adj))})
     mm = bn.to_markov_model()
     cpd_vars = [idx[c.variable] for c in bn.cpds]
     if sorted(cpd_vars) != sorted(cpds_by_var):
@@ -1309,8 +1322,8 @@ def run_sess(case, drv):
                     mn.add_factors(phi)
                     objs.append(phi)
                     fd.append(f)
-        elif op == "replace_factor" and fd:
-            i = rng.randrange(len(fd))
+        elif op == "replace_factor" and any(set(f["vars"]) <= set(nodes) for f in fd):
+            i = rng.choice([j for j, f in enumerate(fd) if set(f["vars"]) <= set(nodes)])
             f = newf(fd[i]["vars"])             # same scope, other values: the factor COUNT is unchanged
             drop(i)
             phi = _mk_factor(case, names, f)
